@@ -7,6 +7,7 @@ package flamego
 // later handler of the request.
 
 import (
+	"bytes"
 	"encoding/json"
 	"encoding/xml"
 	"io"
@@ -69,6 +70,17 @@ func VH_C17_render() {
 	if kind == "xml" {
 		xv = vx.Choice(3)
 	}
+	jv := 0 // which JSON value: 0 a string, 1 an already encoded message (not in compact form), 2 a nil message (encodes to null)
+	if kind == "json" {
+		jv = vx.Choice(3)
+	}
+	var jval interface{} = "VAL"
+	switch jv {
+	case 1:
+		jval = json.RawMessage(`{"a": [1, 2]}`)
+	case 2:
+		jval = json.RawMessage(nil)
+	}
 	late := vx.Bool() // render from the second handler after Renderer instead of the first
 
 	f := NewWithLogger(io.Discard)
@@ -84,7 +96,7 @@ func VH_C17_render() {
 	do := func(r Render) {
 		switch kind {
 		case "json":
-			r.JSON(status, "VAL")
+			r.JSON(status, jval)
 		case "xml":
 			switch xv {
 			case 0:
@@ -155,8 +167,17 @@ func VH_C17_render() {
 	case "json":
 		if vx.Symbolic() {
 			log := vx.StubLog()
-			vx.Assert(len(log) >= 1 && log[len(log)-1] == "json.Encode \"VAL\" indent="+jsonIndent && string(spy.body) == "<json>",
+			vx.Assert(len(log) >= 1 && (jv != 0 || log[len(log)-1] == "json.Encode \"VAL\" indent="+jsonIndent) &&
+				strings.HasPrefix(log[len(log)-1], "json.Encode ") && strings.HasSuffix(log[len(log)-1], " indent="+jsonIndent) && string(spy.body) == "<json>",
 				"C17: the body is exactly the JSON encoding of the given value (encoder bound to this request's writer, configured indentation)")
+		} else if jv != 0 {
+			var ref bytes.Buffer
+			enc := json.NewEncoder(&ref)
+			if jsonIndent != "" {
+				enc.SetIndent("", jsonIndent)
+			}
+			_ = enc.Encode(jval)
+			vx.Assert(string(spy.body) == ref.String(), "C17: the body is exactly the JSON encoding of the given value (encoder bound to this request's writer, configured indentation)")
 		} else {
 			var back string
 			err := json.Unmarshal(spy.body, &back)
@@ -179,5 +200,5 @@ func VH_C17_render() {
 			}
 		}
 	}
-	vx.Observe("render", kind, xv, late, spy.firstCode, spy.ctAtStatus)
+	vx.Observe("render", kind, xv, jv, late, spy.firstCode, spy.ctAtStatus)
 }
